@@ -457,13 +457,14 @@ theorem C06_empty_literal_example :
     ∧ (XPath.get 60 recsEmpty ['r', '[', 'k', '!', '=', '\'', '\'', ']', '/', 'f'] (.str ['D'])).2 = .ok (.list .n0 [.str ['z']]) := by
   decide +kernel
 
-/-- C06-b: chained predicates return the records of the wrong parent -/
+/-- (was finding C06-b, repaired by fix C06-b) chained predicates return the records of the selected
+parent: `o[i=2]/t[s=B]/q` is the `q` of order 2 (before the fix: `[['2']]`, the item of order 1) -/
 def orders : Val :=
   .dict .n0 [(['o'], .list .plain [
     .dict .plain [(['i'], .str ['1']), (['t'], .list .plain [.dict .plain [(['s'], .str ['B']), (['q'], .str ['2'])]])],
     .dict .plain [(['i'], .str ['2']), (['t'], .list .plain [.dict .plain [(['s'], .str ['B']), (['q'], .str ['3'])]])]])]
-theorem C06_chained_cex :
+theorem C06_chained_example :
     (XPath.get 80 orders ['o', '[', 'i', '=', '2', ']', '/', 't', '[', 's', '=', 'B', ']', '/', 'q'] .none).2
-      = .ok (.list .n0 [.list .n0 [.str ['2']]]) := by decide +kernel
+      = .ok (.list .n0 [.list .n0 [.str ['3']]]) := by decide +kernel
 
 end N0.C06
